@@ -499,7 +499,31 @@ func mutexMapShape(repo string) tsInsertion {
 	if dec && del {
 		in.removal = append(in.removal, "refcount-zero")
 	}
-	// users
+	// TryLock (optional): inserts an entry only when there is none, already counted once and locked; it is released by the
+	// same Unlock
+	if tl := optFuncDecl(f, "MutexMap", "TryLock"); tl != nil {
+		tAssigned, tCounted := false, false
+		ast.Inspect(tl.Body, func(n ast.Node) bool {
+			switch s := n.(type) {
+			case *ast.AssignStmt:
+				if len(s.Lhs) == 1 {
+					if ix, ok := s.Lhs[0].(*ast.IndexExpr); ok && exprStr(ix.X) == "m.ma" && exprStr(ix.Index) == in.key {
+						tAssigned = true
+					}
+				}
+			case *ast.KeyValueExpr:
+				if exprStr(s.Key) == "cnt" && exprStr(s.Value) == "1" {
+					tCounted = true
+				}
+			}
+			return true
+		})
+		if !tAssigned || !tCounted {
+			fail("mutexmap.go: TryLock is not `e := &mutexMapEntry{…, cnt: 1} … m.ma[key] = e`")
+		}
+	}
+	// users: `l := cc.msgIDMutex.Lock(x)` + `defer l.Unlock()`, or
+	//        `l, ok := cc.msgIDMutex.TryLock(x)`; `if !ok { …; l = cc.msgIDMutex.Lock(x) }`; `defer l.Unlock()`
 	_, cf := parseFile(repo, "udp/client/conn.go")
 	users, good := 0, 0
 	for _, d := range cf.Decls {
@@ -513,27 +537,47 @@ func mutexMapShape(repo string) tsInsertion {
 				continue
 			}
 			c, ok := as.Rhs[0].(*ast.CallExpr)
-			if !ok || !strings.HasSuffix(exprStr(c.Fun), "msgIDMutex.Lock") {
+			if !ok {
 				continue
 			}
-			users++
-			if i+1 < len(fd.Body.List) {
-				if df, ok := fd.Body.List[i+1].(*ast.DeferStmt); ok && exprStr(df.Call.Fun) == exprStr(as.Lhs[0])+".Unlock" {
-					good++
+			switch {
+			case strings.HasSuffix(exprStr(c.Fun), "msgIDMutex.Lock"):
+				users++
+				if i+1 < len(fd.Body.List) {
+					if df, ok := fd.Body.List[i+1].(*ast.DeferStmt); ok && exprStr(df.Call.Fun) == exprStr(as.Lhs[0])+".Unlock" {
+						good++
+					}
 				}
+			case strings.HasSuffix(exprStr(c.Fun), "msgIDMutex.TryLock") && len(as.Lhs) == 2 && i+2 < len(fd.Body.List):
+				lv, okv := exprStr(as.Lhs[0]), exprStr(as.Lhs[1])
+				is, isIf := fd.Body.List[i+1].(*ast.IfStmt)
+				df, isDf := fd.Body.List[i+2].(*ast.DeferStmt)
+				if !isIf || !isDf || exprStr(is.Cond) != "!"+okv || is.Else != nil || len(is.Body.List) == 0 || exprStr(df.Call.Fun) != lv+".Unlock" {
+					fail("conn.go: msgIDMutex.TryLock is not followed by `if !ok { …; l = cc.msgIDMutex.Lock(x) }` and `defer l.Unlock()`")
+				}
+				last, isAs := is.Body.List[len(is.Body.List)-1].(*ast.AssignStmt)
+				if !isAs || len(last.Lhs) != 1 || exprStr(last.Lhs[0]) != lv || len(last.Rhs) != 1 {
+					fail("conn.go: the `!ok` branch after msgIDMutex.TryLock does not end in `l = cc.msgIDMutex.Lock(x)`")
+				}
+				lc, isCall := last.Rhs[0].(*ast.CallExpr)
+				if !isCall || !strings.HasSuffix(exprStr(lc.Fun), "msgIDMutex.Lock") || len(lc.Args) != 1 || exprStr(lc.Args[0]) != exprStr(c.Args[0]) {
+					fail("conn.go: the `!ok` branch after msgIDMutex.TryLock does not lock the same key")
+				}
+				users += 2 // the TryLock and the Lock of its fallback
+				good += 2
 			}
 		}
 	}
-	// any other use of msgIDMutex.Lock (not of the `l := …` form) is unknown
+	// any other use of msgIDMutex.Lock / TryLock is unknown
 	total := 0
 	ast.Inspect(cf, func(n ast.Node) bool {
-		if c, ok := n.(*ast.CallExpr); ok && strings.HasSuffix(exprStr(c.Fun), "msgIDMutex.Lock") {
+		if c, ok := n.(*ast.CallExpr); ok && (strings.HasSuffix(exprStr(c.Fun), "msgIDMutex.Lock") || strings.HasSuffix(exprStr(c.Fun), "msgIDMutex.TryLock")) {
 			total++
 		}
 		return true
 	})
 	if total != users {
-		fail("conn.go: a msgIDMutex.Lock call that is not `l := cc.msgIDMutex.Lock(x)`")
+		fail("conn.go: a msgIDMutex.Lock / TryLock call of an unknown form")
 	}
 	if users > 0 && users == good {
 		in.removal = append(in.removal, "defer-unlock")
